@@ -1,12 +1,14 @@
 /* bigfmt.c - formatted insertion across the internal buffer-growth thresholds of DYNAMIC_VSPRINTF (1024 * 2^k):
- * putstrf / addstrf / qstrdupf / qstrcatf with results of length 0, 1, 1022..1025, 2047..2049, 4095..4097, 10000.
+ * putstrf / addstrf / qstrdupf / qstrcatf with results of every length 0..1100, 2046..2049, 4094..4097, 8190..8193, 16382..16385, 10000.
  *   bigfmt <container|all>
  */
 #include "vc.h"
 #include "vc_alloc.h"
 #include "qlibc.h"
-static const int LENS[] = {0, 1, 2, 1022, 1023, 1024, 1025, 2046, 2047, 2048, 2049, 4095, 4096, 4097, 8191, 8192, 8193, 10000};
-#define NLENS ((int)(sizeof LENS / sizeof LENS[0]))
+/* every length 0..1100 (any fixed-size staging buffer a formatted insert may use: 16, 32, 64, 128, 256, 512, 1024 - on both sides), then
+ * the neighbourhood of every further doubling */
+static int LENS[1200]; static int NLENS;
+static void mklens(void) { for (int l = 0; l <= 1100; l++) LENS[NLENS++] = l; for (int b = 2048; b <= 16384; b *= 2) for (int d = -2; d <= 1; d++) LENS[NLENS++] = b + d; LENS[NLENS++] = 10000; }
 static long n_eval;
 static char *mk(int len) { char *s = malloc(len + 1); for (int i = 0; i < len; i++) s[i] = 'a' + (i * 7 + len) % 26; s[len] = 0; return s; }
 static void chk(const char *fn, int len, const char *got, size_t gotsz, const char *exp) {
@@ -24,7 +26,7 @@ static void one(const char *cont, int len) {
     if (!strcmp(cont, "qtreetbl")) { qtreetbl_t *t = qtreetbl(0); bool r = t->putstrf(t, "k", "%s", s); char *g = t->get(t, "k", &sz, false); if (!r) vc_viol("fmt:qtreetbl_putstrf", "putstrf(%d bytes) returned false", len); else chk("qtreetbl_putstrf", len, g, sz, s); r = t->putstrf(t, "n", "%d:%s", 7, s); g = t->getstr(t, "n", false); if (!r || !g || strncmp(g, "7:", 2) || strcmp(g + 2, s)) vc_viol("fmt:qtreetbl_putstrf", "putstrf(\"%%d:%%s\") with %d bytes stored the wrong string", len); t->free(t); }
     else if (!strcmp(cont, "qhashtbl")) { qhashtbl_t *t = qhashtbl(2, 0); bool r = t->putstrf(t, "k", "%s", s); char *g = t->get(t, "k", &sz, false); if (!r) vc_viol("fmt:qhashtbl_putstrf", "putstrf(%d bytes) returned false", len); else chk("qhashtbl_putstrf", len, g, sz, s); t->free(t); }
     else if (!strcmp(cont, "qlisttbl")) { qlisttbl_t *t = qlisttbl(0); bool r = t->putstrf(t, "k", "%s", s); char *g = t->get(t, "k", &sz, false); if (!r) vc_viol("fmt:qlisttbl_putstrf", "putstrf(%d bytes) returned false", len); else chk("qlisttbl_putstrf", len, g, sz, s); t->free(t); }
-    else if (!strcmp(cont, "qhasharr")) { size_t ms = qhasharr_calculate_memsize(200); void *mem = malloc(ms); qhasharr_t *t = qhasharr(mem, ms); bool r = t->putstrf(t, "k", "%s", s); char *g = t->get(t, "k", &sz); if (!r) vc_viol("fmt:qhasharr_putstrf", "putstrf(%d bytes) returned false", len); else chk("qhasharr_putstrf", len, g, sz, s); free(g); t->free(t); free(mem); }
+    else if (!strcmp(cont, "qhasharr")) { size_t ms = qhasharr_calculate_memsize(400); void *mem = malloc(ms); qhasharr_t *t = qhasharr(mem, ms); bool r = t->putstrf(t, "k", "%s", s); char *g = t->get(t, "k", &sz); if (!r) vc_viol("fmt:qhasharr_putstrf", "putstrf(%d bytes) returned false", len); else chk("qhasharr_putstrf", len, g, sz, s); free(g); t->free(t); free(mem); }
     else if (!strcmp(cont, "qgrow")) { qgrow_t *g = qgrow(0); bool r1 = g->addstrf(g, "%s", s), r2 = g->addstrf(g, "|%s", s); char *o = g->tostring(g); if (len == 0) { if (r1) vc_viol("fmt:qgrow_addstrf", "addstrf of an empty string accepted a zero-size piece"); } else if (!r1 || !r2 || !o || strlen(o) != 2 * (size_t)len + 1 || strncmp(o, s, len) || o[len] != '|' || strcmp(o + len + 1, s)) vc_viol("fmt:qgrow_addstrf", "addstrf with %d-byte pieces: concatenation differs", len); free(o); g->free(g); }
     else if (!strcmp(cont, "qstring")) { char *d = qstrdupf("%s", s); chk("qstrdupf", len, d, d ? strlen(d) + 1 : 0, s); free(d); char *buf = malloc(2 * len + 8); strcpy(buf, "x="); char *r = qstrcatf(buf, "%s!", s); if (r != buf || strncmp(buf, "x=", 2) || strncmp(buf + 2, s, len) || strcmp(buf + 2 + len, "!")) vc_viol("fmt:qstrcatf", "qstrcatf with a %d-byte piece gave the wrong string", len); free(buf); }
     free(s);
@@ -60,6 +62,7 @@ static int worker(int argc, char **argv) {
     const char *all[] = {"qtreetbl", "qhashtbl", "qlisttbl", "qhasharr", "qgrow", "qstring"};
     if (vc_replay_key && !strncmp(vc_replay_key, "intfmt:", 7)) { char c[32]; long long v; if (sscanf(vc_replay_key, "intfmt:%31[^:]:%lld", c, &v) == 2) intcase(c, v); return 0; }
     if (vc_replay_key) { char c[32]; int len; if (sscanf(vc_replay_key, "bigfmt:%31[^:]:%d", c, &len) == 2) one(c, len); return 0; }
+    mklens();
     for (int i = 0; i < 6; i++) if (argc < 2 || !strcmp(argv[1], "all") || !strcmp(argv[1], all[i])) for (int l = 0; l < NLENS; l++) one(all[i], LENS[l]);
     { const char *ic[] = {"qhashtbl", "qlisttbl", "qqueue", "qstack"}; for (int i = 0; i < 4; i++) if (argc < 2 || !strcmp(argv[1], "all") || !strcmp(argv[1], ic[i])) ints(ic[i]); }
     vc_stat_add("evaluations", n_eval); vc_stat_add("transitions", n_eval); vc_stat_add("states", n_eval); vc_stat_add("nontrivial", n_eval);
